@@ -573,6 +573,7 @@ type verifyCase struct {
 	Out    []int  `json:"out"`
 	Marked []int  `json:"marked"`
 	Expect string `json:"expect"`
+	Spell  string `json:"spell"` // lower | upperfirst | upperlast: spelling of the marked letters
 	Seed   int64  `json:"seed"`
 	Tmp    string `json:"tmp"`
 	Sealed bool   `json:"sealed"`
@@ -679,6 +680,9 @@ func buildQuestion(c verifyCase, dir string, rnd *rand.Rand) (md string, answer 
 	letters := make([]string, len(c.Marked))
 	for i, m := range c.Marked {
 		letters[i] = string(rune('a' + m - 1))
+		if (c.Spell == "upperfirst" && i == 0) || (c.Spell == "upperlast" && i == len(c.Marked)-1) {
+			letters[i] = strings.ToUpper(letters[i])
+		}
 	}
 	switch rnd.Intn(3) {
 	case 0:
@@ -741,6 +745,10 @@ func stageC20Verify(raw json.RawMessage) Result {
 	}
 	obs := map[string]any{"answer": answer, "file": content}
 	m, err := learn.NewQuestionModel(file)
+	if err != nil && c.Spell != "" && c.Spell != "lower" {
+		obs["verdict"] = "refused"
+		return Result{OK: true, Obs: obs} // an upper-case letter may be refused when the question is read
+	}
 	if err != nil {
 		obs["verdict"] = "other"
 		obs["err"] = "load: " + err.Error()
@@ -755,6 +763,10 @@ func stageC20Verify(raw json.RawMessage) Result {
 	obs["verdict"] = got
 	if verr != nil {
 		obs["err"] = verr.Error()
+	}
+	if got == "other" && c.Spell != "" && c.Spell != "lower" {
+		obs["verdict"] = "refused"
+		return Result{OK: true, Obs: obs} // an upper-case letter may be refused when the answer is read
 	}
 	if got == "other" {
 		return Result{OK: false, Diff: "harness: unrelated error from Verify: " + verr.Error(), Obs: obs}
